@@ -1,6 +1,7 @@
 import PersimVerif.Model.Transformers
 import PersimVerif.Lemmas.ImagerForget
 import PersimVerif.Lemmas.ImagerTransformers
+import PersimVerif.Lemmas.ImageModels
 
 /-!
 # C18 — transformers: fit+transform = fit_transform, and refits forget the past
@@ -13,6 +14,10 @@ implementation of the pixel content (that is C04/C11's and C08's business).
 
 The models are small, so most proofs are short; the content is in the quantifiers — every state,
 every pair of histories, every history of calls — and in the tie of the model to the code.
+
+`imagerTransform` here is the third model of `PersistenceImager.transform` (container shape only); it agrees with
+C04/C11's `Image.transform` and C12's `Imager.ensureIterable` by `ImageModels.transform_agree` /
+`ImageModels.ensureIterable_agree` (`Lemmas/ImageModels.lean`).
 
 **What holds by construction of the model.**  `imager_transform_pure`, `imager_transform_pure_history`,
 `landscaper_transform_pure`, `landscaper_fit_then_transform(_history)` and the first component of
